@@ -3,11 +3,17 @@ package main
 const trustedNote = "Trusted base: go/packages + go/types + go/ssa (x/tools v0.29.0) for the configuration analysed; the audit table audit.json (one named construct per exception, reason recorded); the argument in DESIGN.md that each clause is a necessary condition of the property. The check decides the named structural clauses on every path / table cell of the current source; it does not execute uGO programs and does not decide the behavioural statement as a whole."
 
 func init() {
-	for _, id := range []string{"C01", "C02", "C04", "C05", "C06", "C07", "C08", "C09", "C10", "C11", "C12", "C13", "C14", "C16", "C17", "C18", "C19", "C20"} {
+	for _, id := range []string{"C01", "C02", "C04", "C05", "C06", "C07", "C08", "C09", "C10", "C11", "C12", "C13", "C14", "C16", "C17", "C19", "C20"} {
 		notApplicable[id] = "static check for this property is not implemented in this revision of /verif (planned clauses: DESIGN.md section 3); no claim is made"
 	}
 	notApplicable["C03"] = "finally-exactly-once depends on the run-time history of a per-activation handler list addressed by static nesting depths; every structural rule considered either restates today's mechanism (and would fire on a correct redesign) or is a mechanism-presence check the existing tests already pin. No sound static argument in reach bounds the handler-list history (DESIGN.md section 4)."
 
+	metas["C18"] = propMeta{
+		Text:      "Decides, over the functions of package encoder reachable by static calls from DecodeBytecodeFrom, DecodeObject and every UnmarshalBinary/Decode method, that each construct that can panic or over-allocate for some input byte string is guarded on every path: non-comma-ok type assertions on decoded objects (assert), make() sizes non-negative and bounded by the in-memory input length or a constant <= 2^20 (alloc), slice bounds <= len and low <= high with integer wrap-around modelled (slice), indexes inside their operand including fixed tables (index), no method call on an absent map element (nil-call), no explicit panic (panic-reach). Guards are found by an interval analysis over dominating comparisons with structural expression equality; preconditions of unexported helpers are checked at every call site. Does not decide gob's behaviour, termination, total allocation across nested containers, or negative lower slice bounds derived from library contracts. Level 'other': a sound-for-the-modelled-sinks static guard analysis, not a proof of total decoding.",
+		Note:      trustedNote,
+		Technique: "static analysis: SSA sink enumeration + dominating-guard interval analysis with overflow-aware arithmetic and caller-established preconditions",
+		DesignRef: "DESIGN.md section 3, C18",
+	}
 	metas["C15"] = propMeta{
 		Text:      "Decides, for every built-in Object type pair and operator token, structural clauses of the operator tables extracted from the current source by tag-level partial evaluation: Equal is symmetric as a relation on types and compares in one domain (eq-sym); != is the negation of the same Equal call (neq-neg); < <= > >= are defined together with the matching Go operator and converse cells agree (rel-quad, rel-undefined); arithmetic/bitwise cells apply the Go operator of their token (op-token); every integer / % is dominated by a zero test and every shift by a signed count by a sign test (arith-guard). Does not compute operator results, NaN behaviour or deep equality of nested values; 'other' because a table-consistency proof over finite cells is neither a proof of the behavioural law nor an exploration of values.",
 		Note:      trustedNote,
